@@ -88,9 +88,12 @@ fn amount_of(a: &CAmt) -> u128 {
 }
 
 fn to_amsg(m: &CMsg) -> AHub {
+    // one message in five carries all-zero byte fields (a 20-byte zero field is the EVM zero address,
+    // a 32-byte one a zero word: values a "normalising" decoder might take for "absent")
+    let field = |id: u8, len: u16, tag: u8| if id % 5 == 0 { vec![0u8; len as usize] } else { bytes_of(len, tag) };
     let msg = match &m.kind {
-        CKind::Transfer { id, src_len, dst_len, amount, data_len } => AMsg::Transfer { id: [*id; 32], src: bytes_of(*src_len, 1), dst: bytes_of(*dst_len, 2), amount: amount_of(amount), data: bytes_of(*data_len, 3) },
-        CKind::Deploy { id, name, symbol, decimals, minter_len } => AMsg::Deploy { id: [*id; 32], name: name.resolve(), symbol: symbol.resolve(), decimals: *decimals, minter: bytes_of(*minter_len, 4) },
+        CKind::Transfer { id, src_len, dst_len, amount, data_len } => AMsg::Transfer { id: [*id; 32], src: field(*id, *src_len, 1), dst: field(*id, *dst_len, 2), amount: amount_of(amount), data: field(*id, *data_len, 3) },
+        CKind::Deploy { id, name, symbol, decimals, minter_len } => AMsg::Deploy { id: [*id; 32], name: name.resolve(), symbol: symbol.resolve(), decimals: *decimals, minter: field(*id, *minter_len, 4) },
     };
     AHub { send: m.send, chain: m.chain.resolve(), msg }
 }
